@@ -136,6 +136,9 @@ func mutateField(t *rapid.T, m *model.Packet, name string) {
 		m.Retain = bl()
 	case "SetTopicName":
 		m.TopicName = str()
+		if !zero {
+			m.TopicName = gen.Topic(t, "v", o, false)
+		}
 	case "SetPacketID":
 		m.PacketID = u16()
 	case "SetPayloadFormat":
@@ -157,9 +160,9 @@ func mutateField(t *rapid.T, m *model.Packet, name string) {
 	case "SetSubscriptionID":
 		m.SubID = int(gen.SubID(t, "v"))
 	case "AddFilters":
-		m.Filters = append(m.Filters, model.Filter{Filter: gen.Str(t, "v", o), Opts: rapid.Uint8().Draw(t, "opts")})
+		m.Filters = append(m.Filters, model.Filter{Filter: gen.Topic(t, "v", o, false), Opts: rapid.Uint8().Draw(t, "opts")})
 	case "AddFilter":
-		m.UnsubFilters = append(m.UnsubFilters, gen.Str(t, "v", o))
+		m.UnsubFilters = append(m.UnsubFilters, gen.Topic(t, "v", o, false))
 	case "AddReasonCode":
 		m.ReasonCodes = append(m.ReasonCodes, gen.ReasonCode(t, "v"))
 	case "AddUserProp":
